@@ -7,7 +7,7 @@ from .common import Replayer, absorb, Machinery
 
 def run_config(chk, module, cfg, overrides, make_case, worker_module, worker_fn, sample_every=997,
                sample_fn=None, simulate=None, depth=None, expect_all_states=True, label=None, workers=16,
-               timeout=3600):
+               timeout=3600, flush_cases=None):
     rp = Replayer(worker_module, worker_fn)
     ov = dict(overrides or {})
     ov["GenPrint"] = "TRUE"
@@ -27,6 +27,9 @@ def run_config(chk, module, cfg, overrides, make_case, worker_module, worker_fn,
     except BaseException:
         rp.pool.terminate()
         raise
+    if flush_cases:
+        for case in flush_cases():
+            rp.add(case)
     results = rp.finish()
     chk.add_tlc(label or ("%s %s" % (cfg, json.dumps(overrides or {}, sort_keys=True))), res,
                 exhaustive=(simulate is None))
